@@ -38,8 +38,20 @@ def parseWOp (t : String) : Option WOp :=
   else if t.startsWith "%" then (t.drop 1).toString.toNat?.map .number
   else t.toNat?.map .job
 
+/-- `-` = none, else strictly increasing digits within `lo..hi` -/
+def parseFdSet (t : String) (lo hi : Nat) : Option (List Nat) :=
+  if t = "-" then some []
+  else
+    let ds := t.toList.map fun c => c.toNat - 48
+    if t.toList.all (fun c => '0' ≤ c ∧ c ≤ '9') ∧ !ds.isEmpty ∧ ds.all (fun d => lo ≤ d ∧ d ≤ hi) ∧
+        (ds.zip ds.tail).all (fun p => p.1 < p.2) then some ds
+    else none
+
 def parseStmt (t : String) : Option Stmt :=
   match words t with
+  | ["fd", x, y, n] => do
+    let n ← n.toNat?
+    if 2 ≤ n ∧ n ≤ 8 then pure (.fd (← parseFdSet x 0 2) (← parseFdSet y 3 9) n) else none
   | ["pf1"] => some (.pf true)
   | ["pf0"] => some (.pf false)
   | "p" :: ms => (ms.mapM parseMember).map (.pipe false)
